@@ -4,6 +4,7 @@ package dfs
 
 import (
 	"fmt"
+	"time"
 
 	"github.com/whatap/golib/verifshim/sched"
 )
@@ -13,6 +14,9 @@ type Config struct {
 	Faults      int // max non-default environment answers (-1 = unbounded)
 	StepCap     int // per-execution scheduler steps
 	MaxExec     int // cap on executions (0 = none); hitting it makes the result non-exhaustive
+	// Deadline (zero = none) is a wall-clock budget for the thorough tiers: once it has passed the
+	// search stops and the result is non-exhaustive (Capped). It never influences a verdict.
+	Deadline time.Time
 	// ShardI/ShardN split the search over processes: the subtrees below the root execution are
 	// dealt round-robin; shard 0 also owns the root execution itself. ShardN == 0 means no sharding.
 	ShardI, ShardN int
@@ -83,6 +87,10 @@ func Explore(sc Scenario, cfg Config, all bool) (Stats, []Violation, error) {
 		stack = stack[:len(stack)-1]
 		prefix := nd.prefix
 		if cfg.MaxExec > 0 && st.Executions >= cfg.MaxExec {
+			st.Capped = true
+			break
+		}
+		if !cfg.Deadline.IsZero() && st.Executions%64 == 0 && time.Now().After(cfg.Deadline) {
 			st.Capped = true
 			break
 		}
